@@ -434,7 +434,24 @@ func c01ReceiverCases() []c01Run {
 	return out
 }
 
-var c01ValueList = append(append(append(append(c01ValueCases(), c01StoreCases()...), c01TinyInputs()...), c01HeaderSignals()...), c01ReceiverCases()...)
+// ---- printf: every width 1-12 (right, left, zero padded) x strings whose byte and character counts differ
+func c01PrintfCases() []c01Run {
+	var out []c01Run
+	strs := []string{"日本橋", "ééé", "😀😀", "aé", "é", "日本橋日本橋日本橋", "\\t日", ""}
+	for _, st := range strs {
+		for w := 1; w <= 12; w++ {
+			for _, style := range []string{"", "-", "0"} {
+				for _, code := range []string{"s", "v"} {
+					f := "%" + style + strconv.Itoa(w) + code
+					out = append(out, c01Run{prog: "BEGIN { printf('[" + f + "]', '" + st + "'); printf('[" + f + "|" + f + "]', ['" + st + "'], {k: '" + st + "'}); print 'end' }", name: "printf-width:" + f + ":" + st})
+				}
+			}
+		}
+	}
+	return out
+}
+
+var c01ValueList = append(append(append(append(append(c01PrintfCases(), c01ValueCases()...), c01StoreCases()...), c01TinyInputs()...), c01HeaderSignals()...), c01ReceiverCases()...)
 
 // ---- sampled
 
@@ -590,7 +607,7 @@ func c01Run_(c *Case) {
 func init() {
 	register(&Prop{
 		ID: "C01", Level: "exploration",
-		Rule:          "outcome classification only (no model): every run must end as ok / syntax / runtime / json; a recovered panic, a control-flow sentinel or any other error value, the death of the worker process, and for the binary a signal, a Go trace on stderr or a non-zero status without diagnostic are violations. Enumerated: {next, exit, break, continue, return, return v} x 16 placements (BEGIN, END, BEGINFILE, ENDFILE, pattern body, pattern expression via a match block, function called from each of the five rule kinds, match block in BEGIN / pattern rule / function, -r selector via a match block alone and after a plain selector) x {plain, while, for, for-in, nested for-in, nested if} x 4 inputs, all also through the binary; 28 nestable constructs nested 1000 / 8000 / as deep as 64 KiB allows, and 6 of them inside a self-recursive function (recursion x nesting); 22 cyclic / shared shapes (built twice) x 62 operations that walk a value (comparison, contains, sort, match, iteration, rendering, arithmetic, member chains, stores into itself) and 15 histories that shrink an array through one of two references and then walk it through the other; 25 store forms (plain, nested, through fresh names, through $, with ++ / += / --) x 18 keys of every kind (booleans, null, unset, containers, regex, function, fractions, negative, huge) on bases of every kind; every one-byte input and 50 short prefixes of byte-order marks, multi-byte sequences and JSON tokens; the six signals raised from every loop-header position / condition / print list through a match block, with and without an enclosing loop, at rule level and inside functions; method calls on every receiver kind whose argument reassigns the receiver's own location to a value of another kind before the call happens (24 call forms x 8 receivers x 9 new values); all also through the binary. Sampled: whole-grammar random programs in random layouts, token-level mutations, byte-level mutations of these and of the repository's fuzz corpus, raw bytes; hostile inputs (JSONL, truncated, stray closers, nesting to 20000, garbage, empty); generated / mutated / garbage selectors; EvalExpression on JSON-typed roots; fuzzing flag on and off; step budget 50000 (budget-exhausted runs are inconclusive). Non-trivial = at least 3 interpreter steps executed (hook) or a syntax error in a text of >= 10 bytes; distinct by hash of program+selectors+input.",
+		Rule:          "outcome classification only (no model): every run must end as ok / syntax / runtime / json; a recovered panic, a control-flow sentinel or any other error value, the death of the worker process, and for the binary a signal, a Go trace on stderr or a non-zero status without diagnostic are violations. Enumerated: {next, exit, break, continue, return, return v} x 16 placements (BEGIN, END, BEGINFILE, ENDFILE, pattern body, pattern expression via a match block, function called from each of the five rule kinds, match block in BEGIN / pattern rule / function, -r selector via a match block alone and after a plain selector) x {plain, while, for, for-in, nested for-in, nested if} x 4 inputs, all also through the binary; 28 nestable constructs nested 1000 / 8000 / as deep as 64 KiB allows, and 6 of them inside a self-recursive function (recursion x nesting); 22 cyclic / shared shapes (built twice) x 62 operations that walk a value (comparison, contains, sort, match, iteration, rendering, arithmetic, member chains, stores into itself) and 15 histories that shrink an array through one of two references and then walk it through the other; 25 store forms (plain, nested, through fresh names, through $, with ++ / += / --) x 18 keys of every kind (booleans, null, unset, containers, regex, function, fractions, negative, huge) on bases of every kind; every one-byte input and 50 short prefixes of byte-order marks, multi-byte sequences and JSON tokens; the six signals raised from every loop-header position / condition / print list through a match block, with and without an enclosing loop, at rule level and inside functions; method calls on every receiver kind whose argument reassigns the receiver's own location to a value of another kind before the call happens (24 call forms x 8 receivers x 9 new values); printf with every width 1-12 in three padding styles on strings whose byte and character counts differ; all also through the binary. Sampled: whole-grammar random programs in random layouts, token-level mutations, byte-level mutations of these and of the repository's fuzz corpus, raw bytes; hostile inputs (JSONL, truncated, stray closers, nesting to 20000, garbage, empty); generated / mutated / garbage selectors; EvalExpression on JSON-typed roots; fuzzing flag on and off; step budget 50000 (budget-exhausted runs are inconclusive). Non-trivial = at least 3 interpreter steps executed (hook) or a syntax error in a text of >= 10 bytes; distinct by hash of program+selectors+input.",
 		NumCases:      c01Cases,
 		Run:           c01Run_,
 		MinConclusive: func(tier string) int { return 20000 },
